@@ -343,8 +343,9 @@ class PickModel:
 # the driver: event source + pump + model
 # ---------------------------------------------------------------------------------------------
 class Driver:
-    def __init__(self, w, alg, rng, swarm, ops_in, res, log):
+    def __init__(self, w, alg, rng, swarm, ops_in, res, log, base=0):
         self.w, self.alg, self.rng, self.swarm, self.ops_in = w, alg, rng, swarm, ops_in
+        self.base = base  # index of this dialog's first event in the flat event list
         self.res, self.log = res, log
         self.canvas = self.root = self.dialog = None
         self.commands = {}
@@ -452,7 +453,7 @@ class Driver:
                 else:
                     plan[0] = (kind, left - 1)
                     if rng.random() < 0.9:
-                        b = 1 if kind == "pick" else rng.choice([2, 2, 3])
+                        b = 1 if kind == "pick" else 3 if kind == "desel3" else rng.choice([2, 2, 3])
                         e = {"ev": "click", "button": b, "mods": ["shift"]}
                         e.update(self._gen_click_xy(near_selected=(b == 2)))
                         return e
@@ -496,8 +497,8 @@ class Driver:
     def next_event(self):
         """Next event to deliver (applies loss / duplication / reordering in generated runs)."""
         if self.ops_in is not None:
-            if self.delivered < len(self.ops_in):
-                return copy.deepcopy(self.ops_in[self.delivered])
+            if self.base + self.delivered < len(self.ops_in):
+                return copy.deepcopy(self.ops_in[self.base + self.delivered])
             return None
         if self.pending:
             return self.pending.pop(0)
@@ -659,11 +660,12 @@ class Driver:
         step = 0
         while True:
             e = self.next_event()
-            if e is None:
+            auto = e is None
+            if auto:
                 e = {"ev": "close"}
-            if self.ops_in is None or step >= len(self.res["ops"]):
+            if self.ops_in is None or auto:
                 self.res["ops"].append(e)
-            self.deliver(e, step)
+            self.deliver(e, self.base + step)
             self.delivered += 1
             step += 1
             self.canvas.flush_idle()
@@ -701,6 +703,8 @@ def gen_swarm(rng, tier="quick"):
 
 
 def run_case(seed, tier="quick", case=None, known=()):
+    """One history = one or two complete dialogs on the same algorithm object (a second mpe_from_plot must start
+    from an empty selection and replace the modes of the first)."""
     init_worker()
     import matplotlib.pyplot as plt
 
@@ -709,10 +713,12 @@ def run_case(seed, tier="quick", case=None, known=()):
         w = gen_world(rng)
         swarm = gen_swarm(rng, tier)
         ops_in = None
+        ndialogs = 2 if rng.random() < 0.3 else 1
     else:
         w = copy.deepcopy(case["world"])
         swarm = None
         ops_in = copy.deepcopy(case["ops"])
+        ndialogs = None
     log = EventLog(seed)
     log.add({"world": w})
     res = {"property": PROPERTY, "seed": seed, "world": w, "ops": [], "violations": [], "known": [],
@@ -724,38 +730,62 @@ def run_case(seed, tier="quick", case=None, known=()):
         res["counters"]["skip.world_build_failed"] = 1
         log.add({"skip": type(e).__name__})
         return _finish(res, log, None)
-    ref = copy.deepcopy(alg)  # for the differential extraction oracle
-    table_before = h_obj(alg.result)
-    drv = Driver(w, alg, rng, swarm, ops_in, res, log)
     if ops_in is not None:
         res["ops"] = list(ops_in)
-    tksim.CUR["drv"] = drv
     kw = {}
     if w.get("freqlim") is not None:
         kw["freqlim"] = tuple(w["freqlim"])
     kw.update(w.get("mpe_kw", {}))
-    exc = None
-    try:
-        ss.mpe_from_plot("alg", **kw)
-    except Exception as e:
-        exc = e
-    finally:
-        tksim.CUR["drv"] = None
-        plt.close("all")
-    m = drv.model
-    if drv.harness:
-        raise RuntimeError("harness: " + drv.harness)
-    nsteps = drv.delivered
-    if drv.canvas is None or drv.root is None:
-        res["counters"]["skip.dialog_not_opened"] = 1
-        log.add({"skip": "no dialog", "exc": type(exc).__name__ if exc else None})
-        if exc is not None and not drv.handover_seen:
-            drv.violate("live.no_dialog", -1, f"mpe_from_plot raised before the dialog opened: {type(exc).__name__}: {exc}")
-        return _finish(res, log, drv)
-    if m.overflow:
-        drv.inc("skip.candidate_overflow")
-        return _finish(res, log, drv)
-    _judge(drv, w, alg, ref, exc, nsteps, table_before)
+    base, d, drv = 0, 0, None
+    prev_nonempty = False
+    while True:
+        ref = copy.deepcopy(alg)  # for the differential extraction oracle
+        table_before = h_obj(alg.result)
+        drv = Driver(w, alg, rng, swarm, ops_in, res, log, base=base)
+        tksim.CUR["drv"] = drv
+        exc = None
+        try:
+            ss.mpe_from_plot("alg", **kw)
+        except Exception as e:
+            exc = e
+        finally:
+            tksim.CUR["drv"] = None
+            plt.close("all")
+        m = drv.model
+        if drv.harness:
+            raise RuntimeError("harness: " + drv.harness)
+        if drv.canvas is None or drv.root is None:
+            res["counters"]["skip.dialog_not_opened"] = 1
+            log.add({"skip": "no dialog", "exc": type(exc).__name__ if exc else None})
+            if exc is not None and not drv.handover_seen:
+                drv.violate("live.no_dialog", -1, f"mpe_from_plot raised before the dialog opened: {type(exc).__name__}: {exc}")
+            break
+        if m.overflow:
+            drv.inc("skip.candidate_overflow")
+            break
+        nsteps = base + drv.delivered
+        _judge(drv, w, alg, ref, exc, nsteps, table_before)
+        if d >= 1:
+            drv.inc("probe.second_dialog_on_same_algorithm")
+            if prev_nonempty and min(len(c) for c in m.cands) == 0:
+                drv.inc("probe.second_dialog_ends_empty_after_modes_were_extracted")
+        prev_nonempty = prev_nonempty or max(len(c) for c in m.cands) > 0
+        base += drv.delivered
+        d += 1
+        if res["violations"]:
+            break
+        if ops_in is None:
+            if d >= ndialogs:
+                break
+            swarm = gen_swarm(rng, tier)
+            if rng.random() < 0.5:
+                # a short session that ends with nothing selected: pick k, deselect k
+                k = rng.randint(0, 2)
+                swarm["plan"] = [("pick", k), ("desel3", k + rng.randint(0, 1))]
+                swarm["nevents"] = 2 * k + 3
+                swarm["faulty"] = False
+        elif base >= len(ops_in):
+            break
     return _finish(res, log, drv)
 
 
@@ -801,6 +831,10 @@ def _judge(drv, w, alg, ref, exc, nsteps, table_before):
             return
         Fn = np.atleast_1d(np.asarray(r.Fn, dtype=float)) if r.Fn is not None else None
         oo = r.order_out
+        if (Fn is None or oo is None) and min(len(c) for c in m.cands) == 0:
+            # nothing selected: "no modes" may be stored as empty arrays or not at all
+            Fn = np.zeros(0) if Fn is None else Fn
+            oo = [] if oo is None else oo
         if Fn is None or oo is None:
             drv.violate("extract.neq", nsteps - 1, "no Fn/order_out stored after mpe_from_plot")
             return
